@@ -535,7 +535,7 @@ class Gen:
         if k < 0.9:
             return ("count", keys)
         if ints:
-            cs = r.sample(list(cols), r.randint(1, min(2, len(cols))))
+            cs = r.sample(list(cols), 1)     # one entry: PySpark orders a multi-entry dict by JVM map order (unspecified)
             items = []
             for c in cs:
                 f = r.choice(["sum", "avg", "min", "max", "count"]) if cols[c] == "int" else r.choice(["min", "max", "count"])
@@ -626,7 +626,6 @@ def corpus():
         P.append([("short", [], m, ["a"], True)])
     for f in ("sum", "avg", "min", "max", "count"):
         P.append([("dict", "groupBy", [KA], [("b", f)])])
-    P.append([("dict", "groupBy", [KA], [("b", "sum"), ("s", "max")])])
     P.append([("dict", "groupBy", [], [("a", "max")])])
     # expressions of aggregates
     P.append([("agg", "groupBy", [KA], [(("xbin", "Add", A("sum", C("b")), A("count_star")), "x"),
@@ -692,13 +691,60 @@ def make_programs(ctx):
     cols0 = {"a": "int", "b": "int", "s": "str"}
     progs = corpus()
     n_corpus = len(progs)
-    n_rand = 230 if ctx.tier == "quick" else 2600
+    n_rand = 170 if ctx.tier == "quick" else 2600
     for _ in range(n_rand):
         progs.append(g.program(cols0, 5 if ctx.tier == "quick" else 8))
     return progs, n_corpus
 
 
 # ---- verdicts -------------------------------------------------------------------------------------------------
+
+def _x_refs(x):
+    if x[0] == "agg":
+        return set() if x[1][0] == "count_star" else rel.e_cols(x[1][1])
+    out = set()
+    for y in x[1:]:
+        if isinstance(y, tuple):
+            out |= _x_refs(y)
+    return out
+
+
+def step_refs(step):
+    """column names a step refers to"""
+    k = step[0]
+    out = set()
+    if k == "op":
+        o = step[1]
+        if o[0] == "select":
+            for e, _ in o[1]:
+                out |= rel.e_cols(e)
+        elif o[0] == "where":
+            out |= rel.e_cols(o[1])
+        elif o[0] == "orderBy":
+            for e, _, _ in o[1]:
+                out |= rel.e_cols(e)
+        elif o[0] == "withColumn":
+            out |= rel.e_cols(o[2])
+        elif o[0] == "rename":
+            out.add(o[1])
+        elif o[0] == "drop":
+            out |= set(o[1])
+        return out
+    if k == "join":
+        return {step[1]}
+    inner = step[2] if k == "cube" else step
+    keys = step[1] if k == "cube" else step[call_keys(step)]
+    for e, _, _ in keys:
+        out |= rel.e_cols(e)
+    if inner[0] == "agg":
+        for x, _ in inner[3]:
+            out |= _x_refs(x)
+    elif inner[0] == "short":
+        out |= set(inner[3])
+    elif inner[0] == "dict":
+        out |= {c for c, _ in inner[3]}
+    return out
+
 
 def signature(steps, flags):
     """shape predicate of a deviation (implementation vs Spark spec)"""
@@ -716,6 +762,11 @@ def signature(steps, flags):
             return "C06/dict-form-name:count-star"
         if inner[0] == "short" and not inner[4]:
             return "C06/shortcut-without-columns-raises" if flags.get("raised") else "C06/shortcut-without-columns-differs"
+    seen_call = False
+    for s in steps:
+        if seen_call and any("(" in c for c in step_refs(s)):
+            return "C06/fn(col)-named-column-referenced-by-name"
+        seen_call = seen_call or s[0] != "op"
     if flags.get("raised"):
         return "C06/raises:" + flags.get("exc", "?")
     if flags.get("cube_on_empty"):
@@ -832,6 +883,8 @@ def run(ctx: core.Ctx):
         for tname, rows in TABLES.items():
             if is_shape and tname not in ("t1", "empty"):
                 continue
+            if ctx.tier == "quick" and pi >= len(shapes) + n_corpus and tname == "t2":
+                continue        # quick tier: random programs on empty / t1 / t3 only (hand-written shapes on all four)
             key = (repr(steps), tname)
             if key in seen:
                 continue
@@ -927,6 +980,7 @@ def run(ctx: core.Ctx):
         "t2_structurally_equal": n_t2, "t2_exportable": n_exportable, "in_theorem_domain": n_dom,
         "histogram_program_length": hist["len"], "histogram_step_kind": hist["kind"], "histogram_compare_mode": hist["mode"],
         "histogram_aggregate_function": hist["aggfn"], "histogram_key_forms": hist["keys"], "histogram_table": hist["table"],
+        "deviation_signatures": _sig_hist(ctx),
         "impl_raised": n_raise, "pyspark_recordings_checked": n_rec, "pyspark_recordings_disagree": n_rec_bad,
     })
     ctx.assumptions += [
@@ -939,6 +993,13 @@ def run(ctx: core.Ctx):
         "avg is compared as an exact rational: the engine's double is converted with Fraction.limit_denominator(10**6)",
         "C01's assumptions (Sql.Block.eval_block, ordered CTE kept through outer filter/projection/limit)",
     ]
+
+
+def _sig_hist(ctx):
+    h = {}
+    for d in ctx.deviations:
+        h[d["signature"]] = h.get(d["signature"], 0) + 1
+    return h
 
 
 def _aggfns(x):
